@@ -8,10 +8,25 @@ type nodeHTML struct {
 	token     *Token
 	trimLeft  bool
 	trimRight bool
+
+	// Needed for the TrimBlocks/LStripBlocks options (issue #94), which can be
+	// changed until the template gets executed:
+	template    *Template // the template this text belongs to
+	afterBlock  bool      // text directly follows a block tag's "%}"
+	beforeBlock bool      // text is directly followed by a block tag's "{%"
 }
 
 func (n *nodeHTML) Execute(ctx *ExecutionContext, writer TemplateWriter) *Error {
 	res := n.token.Val
+	if n.template != nil && n.template.Options != nil {
+		if n.template.Options.TrimBlocks && n.afterBlock && len(res) > 0 && res[0] == '\n' {
+			// the first newline after a template tag is removed automatically (like in PHP)
+			res = res[1:]
+		}
+		if n.template.Options.LStripBlocks && n.beforeBlock {
+			res = strings.TrimRight(res, "\t ")
+		}
+	}
 	if n.trimLeft {
 		res = strings.TrimLeft(res, tokenSpaceChars)
 	}
